@@ -255,6 +255,11 @@ def obligations(tier):
             bp = BPMSETS[s[0]][0]
             for f in ("ob_roundtrip", "ob_warp_instant"):
                 obs.append(dict(name=f"{f[3:]}{s}/bpm{bp}/clean/G{G}", func=f, args=(s, G, bp, True), budget_s=b, bounds=f"shape {s}, BPM {bp}, clean domain"))
+        # three warps in every arrangement (chains: nested, overlapping, touching, extended then extended again)
+        s = (0, 0, 0, 3)
+        bp = BPMSETS[0][0]
+        for f in ("ob_roundtrip", "ob_warp_instant", "ob_monotone"):
+            obs.append(dict(name=f"{f[3:]}{s}/bpm{bp}/clean/G8", func=f, args=(s, 8, bp, True), budget_s=b, bounds=f"shape {s} (three warps), BPM {bp}, ticks 0..8"))
     return obs
 
 
